@@ -80,10 +80,32 @@ def run(repo, rep, tier):
             and isinstance(c.args[0], ast.Name)]
     okc = bool(chrs)
     for c in chrs:
-        gs = [src(L._CanonIf._pos(t_)[0]) for t_, v_ in
-              L.guards_of(c, se.node) if isinstance(t_, ast.expr)]
-        if c.args[0].id not in [g for g in gs] and not any(
-                g.startswith(c.args[0].id + " ") for g in gs):
+        holds = False
+        for t_, v_ in L.guards_of(c, se.node):
+            if not isinstance(t_, ast.expr):
+                continue
+            pt, flip = L._CanonIf._pos(t_)
+            if (src(pt) == c.args[0].id or src(pt).startswith(
+                    c.args[0].id + " is not None")) and bool(v_) != bool(flip):
+                holds = True
+        # (an early exit in front of the statement counts: 'if not cp:
+        # return ...' followed by the chr())
+        st = c
+        while getattr(st, "_parent", None) is not None and not isinstance(
+                st, ast.stmt):
+            st = st._parent
+        par = getattr(st, "_parent", None)
+        for fld in ("body", "orelse"):
+            blk = getattr(par, fld, None)
+            if isinstance(blk, list) and st in blk:
+                for prev in blk[:blk.index(st)]:
+                    if isinstance(prev, ast.If) and prev.body and isinstance(
+                            prev.body[-1], (ast.Return, ast.Raise)) and \
+                            not prev.orelse:
+                        pt, flip = L._CanonIf._pos(prev.test)
+                        if src(pt) == c.args[0].id and flip:
+                            holds = True
+        if not holds:
             okc = False
     rep.check(okc, "R06.3", se.qualname, "chr() of a looked-up code point "
               "is guarded by that code point", construct="chr-guarded",
